@@ -190,6 +190,11 @@ def recompose (ct : CommitmentType) (txid vout feerate delay : Nat) (offered : B
          ins := [{ txid := txid, vout := vout, sequence := if ct.isZeroFee then 1 else 0 }]
          outs := [{ value := amountSat - fee, script := .revokeable revKey delay delayedKey }] }
 
+/-- the fee LDK's `build_htlc_output` deducts (the same expression as inside `recompose`) -/
+def htlcFee (ct : CommitmentType) (offered : Bool) (feerate : Nat) : Nat :=
+  if ct.isZeroFee then 0 else feerate * htlcWeight ct offered / 1000
+
+
 /-- equality of what the BIP-143 sighash commits to (same script code, amount and input index 0) -/
 def sighashEq (singleAcp : Bool) (a b : HtlcTx) : Bool :=
   if singleAcp then
